@@ -76,6 +76,8 @@ BOXES = {
         "Box('f', Ty(), Ty())", "Box('f', x, y, data={'a': 1})", "Box('f', x, y, data=0)",
         "Box('f', x, y @ x, _dagger=True)", "Box('f', x, y @ x).dagger()", "Swap(x, y)", "Swap(x, x)",
         "Box('f', x, y @ x).bubble()", "Bubble(Box('f', x, y @ x), dom=z, cod=z @ z)",
+        "Box('g', x, y @ y @ y).bubble(cod=y)", "Box('f', x, y).bubble(cod=y @ y)", "Box('f', x @ x, y).bubble(dom=x)",
+        "Box('f', x, y).bubble(dom=x @ x @ x)", "Box('f', x, y).bubble(dom=y, cod=x)", "Box('f', x, y).bubble(dom=Ty(), cod=Ty())",
         "CfgWord('w', x)", "CfgWord('w', x @ y)", "CfgWord('w', x, dom=y)", "CfgWord('w', x @ y, dom=z, data=3)",
     ],
     "rigid": [
